@@ -16,9 +16,10 @@ P("C07",
              "archive (non-regular/unknown entry, missing/duplicate/empty build id, duplicate entity), build id, entity set "
              "(both directions), component spec, port capacities, overflow, storage capacity/unit, page size, unknown "
              "message/event type or handler, and the general c07_mismatch_rejected_entity lifting any per-entity mismatch to "
-             "load_all = Err. PARTIAL below the payload level: gzip/tar/JSON/binary byte decoding is Go's; 'never panics on "
-             "arbitrary bytes' there is sampled (bit flips, truncation, garbage), not proved; the link theorem is complete only "
-             "for single-entity probes (c07_model_agreement_implies_property_partial).",
+             "load_all = Err; c07_load_succeeds (a compatible rebuilt simulation loads) and c07_load_ok_no_mismatch (a successful load "
+             "implies no listed mismatch). PARTIAL below the payload level: gzip/tar/JSON/binary byte decoding is Go's; 'never panics on "
+             "arbitrary bytes' there is sampled (bit flips, truncation, garbage), not proved; the link theorem c07_model_agreement_implies_property_partial is complete for "
+             "whole simulations with the archive as written and for single-entity probes, and gives only no-panic for damaged archives.",
   level_note="Trusted: Coq kernel + vm_compute; the hand-written model (C07/Model.v), tied on every run on ~700 cases: real "
              "simulation.Simulation assemblies (components, event-driven components, ports with buffered messages, storages, page "
              "tables, engine queue, ID generator) saved, rebuilt in a random order, loaded and saved again with archive BYTES "
